@@ -361,8 +361,8 @@ def run(ctx) -> None:
     quick = ctx.tier == "quick"
     k = 1 if quick else 2
     ctx.rule = ("protected (crc / signed / nxp_signed / encrypted) triples of the database x "
-                f"{len(M.LENGTHS)} payload-length classes x {len(M.CONTENTS)} content classes (quick: counter + seeded, "
-                f"look-alikes for classes with relocation-table code) at the base option "
+                f"{len(M.LENGTHS)} payload-length classes x {len(M.CONTENTS)} content classes (quick: counter on every triple; seeded, and "
+                f"look-alikes for classes with relocation-table code, on the first triple of every mixin composition) at the base option "
                 f"set; every further revision at the base payload; option lattice with <= {k} departures and the full "
                 "product of the certificate dimensions on class representatives; per image single-bit flips "
                 + ("at the first / middle / last byte (bits 0 and 7) of every region, and of one bit in every byte of "
@@ -389,12 +389,16 @@ def run(ctx) -> None:
     classes: dict[str, list] = {}
     # ---- structural product ---------------------------------------------------------------------
     cases = []
+    seen_comp: set = set()
     for t in protected_triples():
+        comp_rep = M.composition(t) not in seen_comp
+        seen_comp.add(M.composition(t))
         for L in M.LENGTHS:
             for c in M.CONTENTS:
-                if quick and c not in ("counter", "seeded") and not (
-                        M.has(t, "RelocTable") and c.startswith("reloc-like")):
-                    continue  # quick: content is opaque to the cryptographic layer; look-alikes where a table is parsed
+                if quick and c != "counter" and not (comp_rep and (c == "seeded" or (
+                        M.has(t, "RelocTable") and c.startswith("reloc-like")))):
+                    continue  # quick: content is opaque to the cryptographic layer: counter payload on every triple,
+                    # seeded (and look-alikes where a table is parsed) on the first triple of every mixin composition
                 case = {"fam": t["fam"], "rev": "latest", "tgt": t["tgt"], "auth": t["auth"], "len": L,
                         "content": c, "opts": {}, "seed": ctx.seed}
                 if c == "counter":
